@@ -1,7 +1,7 @@
 (* C06 — every traversal visits exactly the reachable in-universe vertices, once each.
    Statements only; proofs in TravProofs.v (abstract neighbour function) and TravStateProofs.v
    (heap states).  `nb` is neighbors() under the call's direction / unknown / ff_via settings. *)
-From EG Require Import Base State Nbrs Trav TravProofs.
+From EG Require Import Base State Nbrs Trav TravProofs StartMember.
 From Coq Require Import Permutation.
 
 (* each traversal lists, without repetition and starting with the start vertex, exactly the
@@ -115,3 +115,19 @@ Print Assumptions C06_heap_dft_iterative_exact.
 Print Assumptions C06_heap_bft_terminates.
 Print Assumptions C06_heap_dft_recursive_terminates.
 Print Assumptions C06_heap_dft_iterative_terminates.
+
+(* "through vertices belonging to the universe": nothing outside the universe is ever listed (whatever ff_result is),
+   and a start vertex that is no member of the (non-empty) universe is refused by all three traversals, for every fuel *)
+Theorem C06_listing_stays_within_universe : forall nb uni fres fuel start out,
+  (bft nb uni fres fuel start = TOk out -> forall v, In v out -> inU uni v = true) /\
+  (dft_rec nb uni fres fuel start = TOk out -> forall v, In v out -> inU uni v = true) /\
+  (dft_iter nb uni fres fuel start = TOk out -> forall v, In v out -> inU uni v = true).
+Proof. exact trav_listing_within_universe. Qed.
+Theorem C06_start_outside_universe_is_refused : forall nb uni fres fuel start,
+  uni <> Some [] -> inU uni (Some start) = false ->
+  bft nb uni fres fuel start = TErr ValueError /\
+  dft_rec nb uni fres fuel start = TErr ValueError /\
+  dft_iter nb uni fres fuel start = TErr ValueError.
+Proof. exact nonmember_start_refused_trav. Qed.
+Print Assumptions C06_listing_stays_within_universe.
+Print Assumptions C06_start_outside_universe_is_refused.
